@@ -29,7 +29,7 @@ fn probe_ictx() -> InterpreterContext {
     }
     let mut fn_map = HashMap::new();
     fn_map.insert("p_0".to_string(), 0usize);
-    InterpreterContext { fn_map, label_map, call_stack: vec![0] }
+    InterpreterContext { fn_map, label_map, call_stack: vec![0], ..Default::default() }
 }
 
 /// give `text` to the driver's preprocess() (comment stripping first, as the driver does) and to the
